@@ -2,6 +2,7 @@ package rules
 
 import (
 	"fmt"
+	"go/constant"
 	"go/token"
 	"go/types"
 	"regexp/syntax"
@@ -972,13 +973,25 @@ func stringOperands(v ssa.Value, depth int) []ssa.Value {
 		if bi, isB := x.Call.Value.(*ssa.Builtin); isB && bi.Name() == "append" && len(x.Call.Args) > 0 && isFreshBuffer(x.Call.Args[0], 0) {
 			// a line assembled in a buffer of its own: append(append(make([]byte, 0, n), a...), b...)
 			var out []ssa.Value
-			if inner, ok := x.Call.Args[0].(*ssa.Call); ok {
+			if inner, ok := x.Call.Args[0].(*ssa.Call); ok && !isIndentBuffer(inner, 0) {
 				out = append(out, stringOperands(inner, depth+1)...)
 			}
 			for _, a := range x.Call.Args[1:] {
+				if kc, ok := constBytesOf(a); ok {
+					out = append(out, kc)
+					continue
+				}
 				out = append(out, stringOperands(a, depth+1)...)
 			}
 			return out
+		}
+		if sf := staticCallee(&x.Call); sf != nil && objPkgPath(sf) == "strconv" && strings.HasPrefix(sf.Name(), "Append") && len(x.Call.Args) > 1 && isFreshBuffer(x.Call.Args[0], 0) {
+			// strconv.AppendInt(buf, n, 10): what is in the buffer, then the number
+			var out []ssa.Value
+			if inner, ok := x.Call.Args[0].(*ssa.Call); ok {
+				out = append(out, stringOperands(inner, depth+1)...)
+			}
+			return append(out, x.Call.Args[1])
 		}
 		if bi, isB := x.Call.Value.(*ssa.Builtin); isB && bi.Name() == "append" && len(x.Call.Args) > 0 && isConstConv(x.Call.Args[0]) {
 			var out []ssa.Value
@@ -1115,9 +1128,20 @@ func (c *Ctx) RuleRxRebuild() *Result {
 				case *ssa.Call:
 					// append([]byte("##!+ "), group...): a byte-level builder
 					if bi, isB := x.Call.Value.(*ssa.Builtin); isB && bi.Name() == "append" {
-						if _, isLit := constString(stripConv(x.Call.Args[0])); !isLit {
+						_, isLit := constString(stripConv(x.Call.Args[0]))
+						// a line assembled in a scratch buffer of its own (append(buf[:0], group...), then more appends)
+						_, vIsGroup := elem[stripConv(v)]
+						scratch := isFreshBuffer(x.Call.Args[0], 0) && (x.Call.Args[0] == v || len(x.Call.Args) > 1 && x.Call.Args[1] == v && vIsGroup)
+						if !isLit && !scratch {
 							break // appending to something else (the indentation): not a rebuilt line
 						}
+						if !climb(x, depth+1) {
+							roots[x] = true
+						}
+						found = true
+						break
+					}
+					if af := staticCallee(&x.Call); af != nil && objPkgPath(af) == "strconv" && strings.HasPrefix(af.Name(), "Append") && len(x.Call.Args) > 0 && x.Call.Args[0] == v && isFreshBuffer(v, 0) {
 						if !climb(x, depth+1) {
 							roots[x] = true
 						}
@@ -1676,6 +1700,9 @@ func isFreshBuffer(v ssa.Value, depth int) bool {
 	if depth > 6 {
 		return false
 	}
+	if isIndentBuffer(v, depth) {
+		return true
+	}
 	switch x := v.(type) {
 	case *ssa.MakeSlice:
 		if k, ok := constInt(x.Len); ok && k == 0 {
@@ -1683,12 +1710,118 @@ func isFreshBuffer(v ssa.Value, depth int) bool {
 		}
 	case *ssa.Const:
 		return x.Value == nil
+	case *ssa.Slice:
+		// buf[:0]: the scratch buffer emptied for the next line
+		if x.Low == nil && x.High != nil {
+			if k, ok := constInt(x.High); ok && k == 0 {
+				return true
+			}
+		}
 	case *ssa.Call:
 		if bi, isB := x.Call.Value.(*ssa.Builtin); isB && bi.Name() == "append" && len(x.Call.Args) > 0 {
 			return isFreshBuffer(x.Call.Args[0], depth+1)
 		}
+		if f := staticCallee(&x.Call); f != nil && objPkgPath(f) == "strconv" && strings.HasPrefix(f.Name(), "Append") && len(x.Call.Args) > 0 {
+			return isFreshBuffer(x.Call.Args[0], depth+1)
+		}
 	}
 	return false
+}
+
+// isIndentBuffer: a new byte slice that holds nothing but blanks (the indentation a formatted line starts with):
+// bytes.Repeat of a blank, a make whose elements are only ever assigned ' ', or a helper of the repository that
+// returns one of these.
+func isIndentBuffer(v ssa.Value, depth int) bool {
+	if depth > 6 {
+		return false
+	}
+	switch x := v.(type) {
+	case *ssa.MakeSlice:
+		stores := 0
+		for _, r := range referrers(x) {
+			switch y := r.(type) {
+			case *ssa.IndexAddr:
+				for _, rr := range referrers(y) {
+					st, ok := rr.(*ssa.Store)
+					if !ok {
+						continue
+					}
+					if k, ok := constInt(st.Val); !ok || k != ' ' {
+						return false
+					}
+					stores++
+				}
+			}
+		}
+		return stores > 0
+	case *ssa.Call:
+		f := staticCallee(&x.Call)
+		if isFn(f, "bytes", "Repeat") && len(x.Call.Args) == 2 {
+			if s, ok := constString(stripConv(x.Call.Args[0])); ok && strings.Trim(s, " ") == "" {
+				return true
+			}
+		}
+		if sf := staticFn(&x.Call); sf != nil && len(sf.Blocks) > 0 && sf.Pkg != nil && x.Parent() != nil && sf.Pkg == x.Parent().Pkg {
+			n, all := 0, true
+			allInstrs(sf, func(in ssa.Instruction) {
+				if r, ok := in.(*ssa.Return); ok && len(r.Results) == 1 {
+					n++
+					if !isIndentBuffer(r.Results[0], depth+1) {
+						all = false
+					}
+				}
+			})
+			return n > 0 && all
+		}
+	}
+	return false
+}
+
+// constBytesOf: the variadic argument of append(buf, ' ', '-') - an array of constant bytes - as a string constant.
+func constBytesOf(v ssa.Value) (ssa.Value, bool) {
+	sl, ok := v.(*ssa.Slice)
+	if !ok {
+		return nil, false
+	}
+	al, ok := sl.X.(*ssa.Alloc)
+	if !ok {
+		return nil, false
+	}
+	at, ok := derefType(al.Type()).Underlying().(*types.Array)
+	if !ok {
+		return nil, false
+	}
+	if b, ok := at.Elem().Underlying().(*types.Basic); !ok || b.Kind() != types.Uint8 {
+		return nil, false
+	}
+	buf := make([]byte, at.Len())
+	n := 0
+	for _, r := range referrers(al) {
+		ia, ok := r.(*ssa.IndexAddr)
+		if !ok {
+			continue
+		}
+		i, ok := constInt(ia.Index)
+		if !ok || i < 0 || i >= at.Len() {
+			return nil, false
+		}
+		for _, rr := range referrers(ia) {
+			st, ok := rr.(*ssa.Store)
+			if !ok {
+				continue
+			}
+			k, ok := constInt(st.Val)
+			if !ok {
+				return nil, false
+			}
+			buf[i] = byte(k)
+			n++
+		}
+	}
+	if int64(n) != at.Len() {
+		return nil, false
+	}
+	return ssa.NewConst(constant.MakeString(string(buf)), types.Typ[types.String]), true
 }
 
 // builderWrites: the data arguments of the Write* calls on the builder value recv, in program order
